@@ -21,7 +21,8 @@ STATELESS = True
 RULE = ("one case = one whole history (12..70 steps) of map/unMap/clear on 2..4 int/float parameters, incoming "
         "CC(id,value) from 2..6 controller ids and explicit deliveries of the two message channels; streams: "
         "synchronous histories, random delivery orders, systematically enumerated delivery orders of short "
-        "scripts, histories with clear; every history ends with a drain and a probe of every controller; "
+        "scripts (thorough tier: ALL 4^n assignments of a delivery word from {-, r, n, r n} to the n <= 7 calls of four "
+        "scripts), histories with clear; every history ends with a drain and a probe of every controller; "
         "non-trivial = at least one controller value reaches a parameter (the implementation printed a message); "
         "distinct = distinct op line")
 ASSUMPTIONS = ["every port carries min/max metadata with min <= max, both multiples of 1/8, |.| < 2^20",
@@ -47,7 +48,9 @@ LEVEL_NOTE = ("partial for histories in which a /midi-use-CC request meets an em
 
 THEOREMS += [
     "Rtosc.Midi.one_message_per_value",
+    "Rtosc.Midi.other_steps_silent",
     "Rtosc.Midi.value_in_range_monotone",
+    "Rtosc.Midi.special_case_in_range_monotone",
     "Rtosc.Midi.fine_composes_14bit",
     "Rtosc.Midi.assigned_to_oldest_partial",
     "Rtosc.Midi.learn_completes_partial",
@@ -55,7 +58,7 @@ THEOREMS += [
     "Rtosc.Midi.bindings_independent_partial",
     "Rtosc.Midi.unmap_stops_partial",
     "Rtosc.Midi.no_crash_partial",
-    "Rtosc.Midi.hazard_free_without_clear_and_rebind",
+    "Rtosc.Midi.safe_run_is_hazard_free_trace",
     "Rtosc.Midi.assigned_to_oldest_counterexample",
     "Rtosc.Midi.bindings_independent_counterexample",
     "Rtosc.Midi.unassigned_silent_counterexample",
@@ -481,6 +484,26 @@ SCRIPTS = [
 FILL = ["", "r", "n", "r r", "n r", "r n", "r r n r"]
 
 
+def gen_exhaustive():
+    """every assignment of a delivery word from FILL4 to every position of the short scripts
+    (thorough tier): all of these delivery orders are driven, not sampled"""
+    import itertools
+    for s in SCRIPTS:
+        if len(s) > 7:
+            continue
+        for combo in itertools.product(FILL4, repeat=len(s)):
+            t = ["P:i:0:1016,f:-8:8"]
+            for o, f in zip(s, combo):
+                t.append(o)
+                if f:
+                    t.append(f)
+            t += ["r", "r", "n", "r", "r", "n", "r", "c:5:64", "c:6:64", "c:7:64", "c:9:64", "c:0:64"]
+            yield " ".join(t)
+
+
+FILL4 = ["", "r", "n", "r n"]
+
+
 def gen_enumerated(rng, count):
     """delivery orders of short scripts: the word delivered after each API call is drawn from FILL;
     `count` random points of the product space (the thorough tier walks most of it)"""
@@ -501,9 +524,9 @@ MALFORMED = ["P:i:0:1016 c:5:128", "P:i:0:1016 m3c", "P: m0c", "P:q:0:8 m0c", "P
 
 
 def generate(rng, tier, stats):
-    n = 5000 if tier == "quick" else 90000
+    n = 12000 if tier == "quick" else 90000
     kinds = {"sync": 0, "sync+clear": 0, "random": 0, "random+clear": 0, "learn-heavy": 0, "enumerated": 0,
-             "malformed": 0}
+             "exhaustive-delivery-orders": 0, "malformed": 0}
     hist = {"ops_per_line": {}, "cc_ops": 0, "map_ops": 0, "unmap_ops": 0, "clear_ops": 0, "deliveries": 0,
             "lines_with_clear": 0, "lines_with_fine": 0}
 
@@ -523,6 +546,10 @@ def generate(rng, tier, stats):
     for m in MALFORMED:
         kinds["malformed"] += 1
         yield m
+    if tier == "thorough":
+        for l in gen_exhaustive():
+            kinds["exhaustive-delivery-orders"] += 1
+            yield account(l)
     for i in range(n):
         r = rng.random()
         if r < 0.20:
